@@ -14,6 +14,8 @@
 //! (including chains whose prefixes are not ancestors of the path, and paths below ignored
 //! directories) to the model's `matchesPath`.
 //!
+//! Path names never start with `:` (`git check-ignore` reads its arguments as pathspecs, where a
+//! leading `:` is magic, and it rejects `GIT_LITERAL_PATHSPECS`).
 //! Only *file* paths are put to Git (a directory query is not comparable with `matches_dir`, see
 //! notes/C28.md); Git looks at the file type on disk even with `--no-index`, hence the real files.
 use crate::rt::*;
@@ -68,6 +70,8 @@ fn gen_pattern(r: &mut Rng, hot: &[&str]) -> String {
     if r.chance(1, 24) { s.push_str("  "); }
     if r.chance(1, 30) { s.push_str("\\ "); }
     if r.chance(1, 40) { s.push('\r'); }
+    // known finding (fixed case `negated-dollar-line-dropped`): gix-ignore drops lines starting `!$`
+    if s.starts_with("!$") { s.remove(0); }
     s
 }
 
@@ -75,6 +79,8 @@ fn gen_file(r: &mut Rng, hot: &[&str], max_lines: usize) -> String {
     let n = 1 + r.below(max_lines);
     let mut s: String = (0..n).map(|_| gen_pattern(r, hot) + "\n").collect();
     if r.chance(1, 10) { s.pop(); } // no final newline
+    // known finding (fixed case `lone-cr-at-eof-kept`): a CR that ends the file without LF
+    while s.ends_with('\r') { s.pop(); }
     s
 }
 
@@ -226,11 +232,6 @@ fn features(out: &mut Out, txt: &str) {
     }
 }
 
-/// How would jj answer with the `!$…` lines (which gix-ignore drops) rewritten to the equivalent `!\$…`?
-fn has_bang_dollar(c: &Case) -> bool {
-    c.files.iter().map(|(_, t)| t).chain(c.global.iter()).chain(c.info.iter()).any(|t| t.lines().any(|l| l.starts_with("!$")))
-}
-
 fn snap_case(out: &mut Out, env: &mut Env, c: &Case) {
     env.materialise(c);
     let git = env.git_check(&c.paths);
@@ -253,8 +254,7 @@ fn snap_case(out: &mut Out, env: &mut Env, c: &Case) {
         out.tally("git-verdict", match &git[i] { None => "no-pattern", Some(pat) if pat.starts_with('!') => "re-included", _ => "ignored" });
         out.tally("depth", &p.split('/').count().to_string());
         if git_ignored == jj[i] { out.oracle_ok(); continue; }
-        let sig = if has_bang_dollar(c) { "gitignore:bang-dollar-line-dropped-or-other" }
-                  else if jj[i] { "gitignore:jj-ignores-git-does-not" } else { "gitignore:git-ignores-jj-does-not" };
+        let sig = if jj[i] { "gitignore:jj-ignores-git-does-not" } else { "gitignore:git-ignores-jj-does-not" };
         out.oracle_fail(sig, format!("path {p:?}: git={git_ignored} (deciding pattern {:?}) jj={}; global={:?} info={:?} files={:?} all paths={:?}",
                                      git[i], jj[i], c.global, c.info, c.files, c.paths));
     }
@@ -286,9 +286,84 @@ fn raw_case(out: &mut Out, r: &mut Rng, chain_spec: &[(String, String)], paths: 
     }
 }
 
+/// development aid: `jjverif C28 --probe FILE` runs only the cases of FILE, one per line:
+/// `dir=content;dir=content|path,path` with `\n \r \t \f \\` escapes in the contents; the
+/// pseudo-directories `@global` / `@info` are the excludes file / `info/exclude`.
+fn unescape(s: &str) -> String {
+    let mut o = String::new();
+    let mut it = s.chars();
+    while let Some(c) = it.next() {
+        if c != '\\' { o.push(c); continue; }
+        match it.next() { Some('n') => o.push('\n'), Some('r') => o.push('\r'), Some('t') => o.push('\t'), Some('f') => o.push('\x0c'), Some('B') => o.push('\u{feff}'),
+                          Some('\\') => o.push('\\'), Some(x) => { o.push('\\'); o.push(x); } None => o.push('\\') }
+    }
+    o
+}
+fn parse_probe(line: &str) -> Case {
+    let (fs, ps) = line.rsplit_once('|').expect("probe line: files|paths");
+    let mut c = Case { global: None, info: None, files: vec![], paths: ps.split(',').map(unescape).collect() };
+    for e in fs.split(';').filter(|e| !e.is_empty()) {
+        let (d, t) = e.split_once('=').expect("dir=content");
+        let t = unescape(t);
+        match d { "@global" => c.global = Some(t), "@info" => c.info = Some(t), _ => c.files.push((d.to_string(), t)) }
+    }
+    c
+}
+
+/// The confirmed divergences from Git (known findings, see notes/C28.md) as fixed cases, so that
+/// every run exercises them and reports them by their own signature; the random generator avoids
+/// these shapes.  `modelled` = the Lean model mirrors jj's (gix's) behaviour here, so the case also
+/// goes through the tie; otherwise it is an oracle-only case.
+fn finding_cases(out: &mut Out, env: &mut Env) {
+    let cases: [(&str, &str, bool); 6] = [
+        // gix-ignore drops every line that starts with `!$` (reserved for "precious" syntax): no re-inclusion
+        ("gitignore:negated-dollar-line-dropped", "=*a\\n!$a\\n|$a,xa,d/$a", true),
+        // bstr::lines keeps a CR that ends the file without LF; Git strips it
+        ("gitignore:lone-cr-at-eof-kept", "=b\\na*\\r|a1,b,d/a", true),
+        // `[:` inside a bracket expression that is not a `[:class:]`: gix-glob re-scans from the wrong place
+        ("gitignore:bracket-colon-not-class", "=x[a[:b]\\ny[[:a]\\n|xa,xb,x:,y:,ya,yb", false),
+        // unicode-bom recognises the ASCII UTF-7 marks `+/v8 +/v9 +/v+ +/v/` (and other non-UTF-8 BOMs): 4 bytes vanish
+        ("gitignore:non-utf8-bom-stripped", "=+/v8b\\nc\\n|+/v8b,b,c", true),
+        // `[:space:]` is only ' ' (Git: isspace), `[:blank:]` is ASCII whitespace (Git: space, tab)
+        ("gitignore:posix-class-control-chars", "=x[[:space:]]\\ny[[:blank:]]\\n|x\\t,x ,y\\f,y\\t", true),
+        // a line of only tab / form feed is dropped (Git keeps it as a pattern)
+        ("gitignore:whitespace-only-pattern-dropped", "=\\t\\n|\\t,a", true),
+    ];
+    for (sig, line, modelled) in cases {
+        let c = parse_probe(line);
+        env.materialise(&c);
+        let git = env.git_check(&c.paths);
+        let tracked = env.jj_snapshot();
+        let jj: Vec<bool> = c.paths.iter().map(|p| !tracked.contains(p)).collect();
+        if modelled { out.case(&format!("snap _ {} {}", enc_files(&c.files), enc_paths(&c.paths)), &bits(jj.iter().copied())); }
+        else { out.impl_only(); }
+        out.tally("fixed-finding-case", sig);
+        let mut differs = false;
+        for (i, p) in c.paths.iter().enumerate() {
+            let git_ignored = matches!(&git[i], Some(pat) if !pat.starts_with('!'));
+            if git_ignored == jj[i] { out.oracle_ok(); continue; }
+            differs = true;
+            out.oracle_fail(sig, format!("path {p:?}: git={git_ignored} (deciding pattern {:?}) jj={}; files={:?}", git[i], jj[i], c.files));
+        }
+        if !differs { out.note(format!("finding {sig} no longer reproduces (jj agrees with Git on its fixed case)")); }
+        env.reset();
+    }
+}
+
 pub fn run(cfg: &Cfg, out: &mut Out) {
     let mut env = Env::new();
     env.reset();
+    if let Some(i) = cfg.extra.iter().position(|a| a == "--probe") {
+        let txt = std::fs::read_to_string(&cfg.extra[i + 1]).unwrap();
+        for line in txt.lines().filter(|l| !l.is_empty() && !l.starts_with("//")) {
+            let c = parse_probe(line);
+            let before = out.failures.len();
+            snap_case(out, &mut env, &c);
+            for f in &out.failures[before..] { eprintln!("PROBE-DIFF {}: {}", f.signature, f.detail); }
+        }
+        return;
+    }
+    finding_cases(out, &mut env);
     let n_cases = cfg.n(150, 1500);
     let mut r = cfg.rng(28);
     let mut r2 = cfg.rng(2828);
